@@ -81,6 +81,9 @@ func runCase(c ringlab.ChurnCfg, rep *batch.Report) batch.CaseResult {
 	rep.Count("leaves_done", int64(res.LeavesDone))
 	rep.Count("leaves_gave_up", int64(res.LeavesGave))
 	rep.Count("backend_"+ringlab.Backend(c.Backend).String(), 1)
+	if c.RealRPC {
+		rep.Count("executions_over_real_rpc", 1)
+	}
 	if res.JoinsOK+res.LeavesDone > 0 && acked > 0 {
 		out.Sig = res.EventSig
 	}
@@ -129,6 +132,14 @@ func main() {
 		}
 		if i%4 == 3 {
 			c.Leases = true // lease-only keys that expire before a second churn phase
+		}
+		if !r.Quick() && i%6 == 3 && c.Backend == int(ringlab.Memory) {
+			// the real RPC path between the nodes (RemoteNode, twirp over HTTP/2, production timeouts)
+			c.NetV, c.RealRPC = false, true
+			c.MaxNodes = 6
+			if c.Initial > 4 {
+				c.Initial = 4
+			}
 		}
 		if r.WantCase(c.Name) {
 			cases = append(cases, c)
